@@ -5379,7 +5379,7 @@ void UniCompiler::emit_vm(UniOpVM op, const Vec& dst_, const Mem& src_, Alignmen
       case UniOpVM::kLoadCvtN_U8ToU64: {
         if (has_sse4_1()) {
           src.set_size(2);
-          cc->emit(op_info.avx_inst_id, dst, src);
+          cc->emit(op_info.sse_inst_id, dst, src);
         }
         else {
           src.set_size(1);
